@@ -18,6 +18,7 @@ Rendering, errors and calls are functions of the compiled tree, hence equal.
 import DTML.Scan
 import DTML.Parse
 import DTML.Lemmas.Print
+import DTML.Lemmas.ParseTag
 set_option linter.unusedVariables false
 namespace DTML.Props.C07
 open DTML.Scan DTML.Parse
@@ -351,5 +352,48 @@ example : ∀ i ∈ doc, WfSsi i := by
 end Example
 
 end Documents
+
+/-! #### obligations on the translated `parseTag` of the two classes (GenParseTag.lean, regenerated on every run)
+
+`tagRole` - what half (1) is stated about - is what `HTML.parseTag` and `String.parseTag` of the current source compute,
+statement by statement (lemmas in Lemmas/ParseTag.lean); `ctx` is the innermost open block: its command and the
+arguments of its start tag (`command`, `sargs`), absent at top level. -/
+
+open DTML.GenParseTag in
+/-- `HTML.parseTag` (the `<dtml-…>` / `<!--#…-->` / `&dtml-…;` syntaxes) -/
+theorem gen_html_parseTag_is_model (tk : Tok) (ctx : Option (Cmd × Text)) :
+    parseTagHtmlGen tk (ctx.map (·.1)) ((ctx.map (·.2)).getD []) = tagRole .html tk ctx :=
+  DTML.Lemmas.ParseTag.html_eq tk ctx
+
+open DTML.GenParseTag in
+/-- `String.parseTag` (the `%(…)s` syntax) -/
+theorem gen_string_parseTag_is_model (tk : Tok) (ctx : Option (Cmd × Text)) :
+    parseTagEpfsGen tk (ctx.map (·.1)) ((ctx.map (·.2)).getD []) = tagRole .epfs tk ctx :=
+  DTML.Lemmas.ParseTag.epfs_eq tk ctx
+
+open DTML.GenParseTag in
+/-- `String._parseTag`, the entry `parse` / `parse_block` call: around either `parseTag` it is `tagRole` of the syntax,
+also with the defaults of the source (`command=None, sargs=''`) at top level -/
+theorem gen_parseTag_wrapper_is_model (syn : Syntax) (tk : Tok) (ctx : Option (Cmd × Text)) :
+    DTML.Lemmas.ParseTag.parseTagGen syn tk (ctx.map (·.1)) ((ctx.map (·.2)).getD []) = tagRole syn tk ctx ∧
+    wrapGen @parseTagHtmlGen tk = tagRole .html tk none ∧ wrapGen @parseTagEpfsGen tk = tagRole .epfs tk none :=
+  ⟨DTML.Lemmas.ParseTag.parseTagGen_eq syn tk ctx, (DTML.Lemmas.ParseTag.parseTagGen_top tk).1,
+   (DTML.Lemmas.ParseTag.parseTagGen_top tk).2.1⟩
+
+/-- a lazily imported command (`(cname, module, class)` in `String.commands`) is stored back under the key it was found
+under, and that key is a command of the table `Cmd.ofName` was checked against -/
+theorem gen_lazy_commands_keep_their_key :
+    ∀ e ∈ DTML.GenParseTag.lazyCommandsGen, e.1 = e.2.1 ∧ (Cmd.ofName e.1).isSome = true := by
+  decide
+
+/-- hence `tagRole_epfs_eq_html`, stated on the translated methods: String.parseTag on a `%(…)` token is HTML.parseTag on
+the corresponding `<dtml-…>` token (same side condition on the constructed argument text) -/
+theorem gen_parseTag_epfs_eq_html (t : Tok) (ctx : Option (Cmd × Text))
+    (hstrip : pyStrip (epfsAsHtml t).args = if t.fmt = [']'] ∨ t.fmt = ['['] ∨ t.fmt = ['!'] then pyStrip t.args
+                                             else (epfsAsHtml t).args) :
+    DTML.GenParseTag.parseTagEpfsGen t (ctx.map (·.1)) ((ctx.map (·.2)).getD []) =
+      DTML.GenParseTag.parseTagHtmlGen (epfsAsHtml t) (ctx.map (·.1)) ((ctx.map (·.2)).getD []) := by
+  rw [gen_html_parseTag_is_model, gen_string_parseTag_is_model]
+  exact tagRole_epfs_eq_html t ctx hstrip
 
 end DTML.Props.C07
